@@ -229,39 +229,42 @@ Fixpoint utf8_enc (s : str) : option str :=
               end
   end.
 Definition is_cont (b : N) : bool := N.leb 128 b && N.leb b 191.
-(* strict UTF-8 as CPython decodes it: no overlong forms, no surrogates, nothing above U+10FFFF *)
+(* strict UTF-8 as CPython decodes it: no overlong forms, no surrogates, nothing above U+10FFFF.
+   One character: the code point and the remaining bytes. *)
+Definition utf8_step (b0 : N) (t : str) : option (N * str) :=
+  if N.ltb b0 128 then Some (b0, t)
+  else if N.leb 194 b0 && N.leb b0 223 then
+    match t with
+    | b1 :: t1 => if is_cont b1 then Some (((b0 - 192) * 64 + (b1 - 128))%N, t1) else None
+    | _ => None
+    end
+  else if N.leb 224 b0 && N.leb b0 239 then
+    match t with
+    | b1 :: b2 :: t2 =>
+      if N.leb (if N.eqb b0 224 then 160 else 128) b1 && N.leb b1 (if N.eqb b0 237 then 159 else 191) && is_cont b2
+      then Some (((b0 - 224) * 4096 + (b1 - 128) * 64 + (b2 - 128))%N, t2) else None
+    | _ => None
+    end
+  else if N.leb 240 b0 && N.leb b0 244 then
+    match t with
+    | b1 :: b2 :: b3 :: t3 =>
+      if N.leb (if N.eqb b0 240 then 144 else 128) b1 && N.leb b1 (if N.eqb b0 244 then 143 else 191)
+         && is_cont b2 && is_cont b3
+      then Some (((b0 - 240) * 262144 + (b1 - 128) * 4096 + (b2 - 128) * 64 + (b3 - 128))%N, t3) else None
+    | _ => None
+    end
+  else None.
 Fixpoint utf8_dec_aux (fuel : nat) (b : str) : option str :=
-  match fuel with
-  | O => match b with [] => Some [] | _ => None end
-  | S f =>
-    match b with
-    | [] => Some []
-    | b0 :: t =>
-      if N.ltb b0 128 then option_map (cons b0) (utf8_dec_aux f t)
-      else if N.leb 194 b0 && N.leb b0 223 then
-        match t with
-        | b1 :: t1 => if is_cont b1 then option_map (cons ((b0 - 192) * 64 + (b1 - 128))%N) (utf8_dec_aux f t1) else None
-        | _ => None
-        end
-      else if N.leb 224 b0 && N.leb b0 239 then
-        match t with
-        | b1 :: b2 :: t2 =>
-          let lo := if N.eqb b0 224 then 160%N else 128%N in
-          let hi := if N.eqb b0 237 then 159%N else 191%N in
-          if N.leb lo b1 && N.leb b1 hi && is_cont b2
-          then option_map (cons ((b0 - 224) * 4096 + (b1 - 128) * 64 + (b2 - 128))%N) (utf8_dec_aux f t2) else None
-        | _ => None
-        end
-      else if N.leb 240 b0 && N.leb b0 244 then
-        match t with
-        | b1 :: b2 :: b3 :: t3 =>
-          let lo := if N.eqb b0 240 then 144%N else 128%N in
-          let hi := if N.eqb b0 244 then 143%N else 191%N in
-          if N.leb lo b1 && N.leb b1 hi && is_cont b2 && is_cont b3
-          then option_map (cons ((b0 - 240) * 262144 + (b1 - 128) * 4096 + (b2 - 128) * 64 + (b3 - 128))%N) (utf8_dec_aux f t3) else None
-        | _ => None
-        end
-      else None
+  match b with
+  | [] => Some []
+  | b0 :: t =>
+    match fuel with
+    | O => None
+    | S f =>
+      match utf8_step b0 t with
+      | Some (c, rest) => option_map (cons c) (utf8_dec_aux f rest)
+      | None => None
+      end
     end
   end.
 Definition codec_utf8 : codec :=
